@@ -587,6 +587,55 @@ def rewriter_facts(tree):
     return dict(exclude_wins=exclude_wins, skips_unknown=True, identity=identity)
 
 
+def purity_facts(tree):
+    """get_all_fields must build its mapping from a COPY of the descriptor's field mapping (otherwise the first call
+    adds the reserved fields to `descriptor.fields` itself); GroupedRecord._asdict must read every key through the
+    member that owns it, in both branches."""
+    q = "RecordDescriptor.get_all_fields"
+    body = strip_doc(find_def(tree, q).body)
+    if len(body) != 2 or match("return self._all_fields", body[1]) is None:
+        raise Unsupported("%s has another shape" % q)
+    st = body[0]
+    if not (isinstance(st, ast.If) and not st.orelse and match("self._all_fields is None", st.test, None, "expr") is not None and len(st.body) == 2):
+        raise Unsupported("%s: the caching test has another shape" % where(q, st))
+    i, _ = match_any(["self._all_fields = self.fields.copy()", "self._all_fields = OrderedDict(self.fields)",
+                      "self._all_fields = collections.OrderedDict(self.fields)", "self._all_fields = dict(self.fields)",
+                      "self._all_fields = self.fields"], st.body[0])
+    if i is None:
+        raise Unsupported("%s: the initial mapping has another shape" % where(q, st.body[0]))
+    copies = i != 4
+    if match("self._all_fields.update(self.get_required_fields())", st.body[1]) is None:
+        raise Unsupported("%s: the reserved fields are added in another way" % where(q, st.body[1]))
+    # `fields` itself: cached OrderedDict built from the declared tuples
+    q1 = "RecordDescriptor.fields"
+    b1 = strip_doc(find_def(tree, q1).body)
+    if not (len(b1) == 2 and match("return self._fields", b1[1]) is not None and match(
+            "if self._fields is None:\n    self._fields = OrderedDict([(V_n, RecordField(V_n, V_t)) for V_t, V_n in self._field_tuples])", b1[0]) is not None):
+        raise Unsupported("%s has another shape" % q1)
+    q2 = "GroupedRecord._asdict"
+    fn = find_def(tree, q2)
+    if params(fn) != ["self", "fields", "exclude"]:
+        raise Unsupported("%s parameters are %r" % (q2, params(fn)))
+    b2 = strip_doc(fn.body)
+    if len(b2) != 4 or match("exclude = exclude or []", b2[0]) is None:
+        raise Unsupported("%s has another shape" % q2)
+    env = match("V_keys = self.fieldname_to_record.keys()", b2[1])
+    if env is None:
+        raise Unsupported("%s: the key set has another shape" % where(q2, b2[1]))
+    if not (isinstance(b2[2], ast.If) and not b2[2].orelse and len(b2[2].body) == 1 and match("fields", b2[2].test, None, "expr") is not None):
+        raise Unsupported("%s: the fields= branch has another shape" % where(q2, b2[2]))
+    reads = []
+    for st, pat in ((b2[2].body[0], "return OrderedDict((V_k, %s) for V_k in fields if V_k in V_keys and V_k not in exclude)"),
+                    (b2[3], "return OrderedDict((V_k, %s) for V_k in V_keys if V_k not in exclude)")):
+        if match(pat % "getattr(self.fieldname_to_record[V_k], V_k)", st, env) is not None:
+            reads.append(True)
+        elif match(pat % "getattr(self, V_k)", st, env) is not None:
+            reads.append(False)
+        else:
+            raise Unsupported("%s: unrecognised return statement" % where(q2, st))
+    return dict(copies=copies, asdict_member=all(reads))
+
+
 def gen_compose():
     import flow.record.base as base
     import flow.record.stream as stream
@@ -599,6 +648,7 @@ def gen_compose():
     g = group_facts(btree)
     r = replace_facts(btree)
     w = rewriter_facts(stree)
+    pu = purity_facts(btree)
     ts = base.TimestampRecord
     tsf = list(ts.get_field_tuples())
     if len(tsf) != 2:
@@ -615,6 +665,11 @@ def gen_compose():
         clist([cstr(k) for k in t["meta"]]))
     out += "(* iter_timestamped_records: the loop extends the record it yielded in the previous round (re-binding) *)\n"
     out += "Definition gen_ts_extends_previous : bool := %s.\n\n" % cbool(t["extends_previous"])
+    out += "(* RecordDescriptor.get_all_fields builds its mapping from a copy of descriptor.fields (so that no operation changes\n"
+    out += "   what a descriptor reports as its fields); GroupedRecord._asdict reads every key through the owning member, with\n"
+    out += "   and without fields= *)\n"
+    out += "Definition gen_all_fields_copies : bool := %s.\n" % cbool(pu["copies"])
+    out += "Definition gen_group_asdict_reads_member : bool := %s.\n\n" % cbool(pu["asdict_member"])
     out += "(* shapes read from merge_record_descriptors, extend_record, RecordDescriptor.init_from_dict,\n"
     out += "   iter_timestamped_records, GroupedRecord.__init__/__getattr__/__setattr__/_replace, Record._replace,\n"
     out += "   RecordFieldRewriter.record_descriptor_for_fields/rewrite *)\n"
